@@ -130,6 +130,16 @@ Theorem C11_property_move_construction_keeps_values :
 Proof. exact PropMove.grow_movector. Qed.
 Print Assumptions C11_property_move_construction_keeps_values.
 
+(* the same for move ASSIGNMENT over a destination that no live binding reads: "whatever the destination held before is disposed
+   of" (its binding is dead, PropLinkMove) and the remaining bound properties still equal their expressions *)
+Theorem C11_property_move_assignment_keeps_values :
+  forall fn rtl fuel w dst src w',
+    PropSim.SC w -> PropSim.COH fn w -> PropFlags.NOEMIT w ->
+    (forall b lf, PropLink.has_leaf w b lf -> PropLink.lf_tg lf <> Some dst) ->
+    PropDefs.step1 fn rtl fuel w (PropDefs.PMoveAssign dst src) = (w', None) -> PropSim.SC w' /\ PropSim.COH fn w'.
+Proof. exact PropMove.grow_moveassign. Qed.
+Print Assumptions C11_property_move_assignment_keeps_values.
+
 (* non-vacuity: an input is move-constructed away and then move-assigned over another input of the same binding; legal, invariant
    holds, the binding follows (value 3+3 after the write to the final location), the overwritten input's reader reports
    PropertyDestroyedError only if it is still read: here both leaves end up reading property 5 *)
